@@ -17,10 +17,10 @@ on the lock, or blocked on a live predecessor).  Every successful step appends e
 `s.log`.
 
 Atomicity.  `connect`, `status` and `disconnect` execute completely inside `with self._write_lock`;
-so do the take-over in the prologue of `run`, the write phase of `_run` and the `finally` block of
-`run`.  Each such block is TWO actions: "acquire the lock and run the block" (enabled iff the
+so do the take-over in the prologue of `run`, the write phase of `_run`, the final
+"check the flag and disconnect" block of `_handle_exception` and the `finally` block of `run`.  Each such block is TWO actions: "acquire the lock and run the block" (enabled iff the
 re-entrant lock can be acquired) and "release the lock".  Everything else a networking thread does
-(checking `self.interrupt`, `read_packet`, the handler logic of `_handle_exception`) runs WITHOUT
+(checking `self.interrupt`, `read_packet`, the handlers called by `_handle_exception`) runs WITHOUT
 the lock, one action per shared-memory access, and interleaves freely with the other threads.
 
 Abstractions.  No packet queue: the write phase of an uninterrupted thread is one send event;
@@ -77,14 +77,12 @@ inductive Site
   | react     -- `PlayingReactor.react`, disconnect packet: `self.connection.disconnect()`
   | listen    -- a packet listener (runs after the reaction) calls `connect()`
   | handler   -- an exception handler (inside `_handle_exception`) calls `connect()`
-  | cleanup   -- `_handle_exception`: `self.disconnect(immediate=True)`
 deriving DecidableEq, Repr
 
 def Site.op : Site → Op
   | .react => .disconnect false
   | .listen => .connect
   | .handler => .connect
-  | .cleanup => .disconnect true
 
 /-- Program counter of a networking thread.  The constructor names the NEXT action. -/
 inductive NPc
@@ -103,7 +101,9 @@ inductive NPc
   | exit                      -- `self.connection._handle_exit()`
   | exc                       -- `except Exception: self.interrupt = True`
   | hRun                      -- `_handle_exception`: run the handlers
-  | hChk                      -- `if (self.new_networking_thread or self.networking_thread).interrupt`
+  | hChk                      -- `with lock: if (new_networking_thread or networking_thread).interrupt:
+                              --               self.disconnect(immediate=True)`
+  | hRel                      -- end of that `with`
   | epilogue                  -- `finally: with lock: networking_thread = None`
   | epRel                     -- end of that `with`
   | fin                       -- `run` has returned; the thread is about to stop being alive
@@ -146,7 +146,8 @@ inductive Ev
   | exit
   | exc
   | hrun (reconnect : Bool)
-  | hchk (b : Option Bool)           -- the flag that was read (`none`: both slots empty)
+  | hchk (b : Option Bool)           -- the flag that was read under the lock (`none`: both slots
+                                     -- empty); `some true`: `disconnect(immediate=True)` executed
   | epi                              -- `networking_thread = None`
   | fin                              -- `finally` block left: no more I/O
   | die
@@ -154,7 +155,7 @@ deriving DecidableEq, Repr
 
 /-- Events that touch the network (or may: an API call connects / shuts down a socket). -/
 def Ev.isIO : Ev → Bool
-  | .call _ _ | .wr _ | .wrFail | .rd _ _ => true
+  | .call _ _ | .wr _ | .wrFail | .rd _ _ | .hchk _ => true
   | _ => false
 
 structure Sys where
@@ -273,7 +274,6 @@ def afterCall (s : Sys) (site : Site) (out : Outcome) : NPc :=
   | .react => if s.rl = 0 then .rChk else .call .listen      -- the listeners run after the reaction
   | .listen => if out = .ok then .rChk else .exc             -- an exception leaves `_react`, `_run`
   | .handler => .hChk                                        -- handler exceptions are swallowed
-  | .cleanup => .epilogue
 
 /-- Next atomic action of networking thread `i`. -/
 def stepNet (env : List Beh) (s : Sys) (i : Nat) : Option Sys :=
@@ -364,14 +364,26 @@ def stepNet (env : List Beh) (s : Sys) (i : Nat) : Option Sys :=
     else
       some { s with rh := s.rh - 1, net := updN s i { me with pc := .call .handler },
                     log := s.log ++ [(t, .hrun true)] }
-  | .hChk =>
-    match target s with
-    | some j =>
-      some { s with net := updN s i { me with pc := if (s.net j).intr then .call .cleanup
-                                                     else .epilogue },
-                    log := s.log ++ [(t, .hchk (some (s.net j).intr))] }
-    | none =>            -- `None.interrupt`: AttributeError inside the `except` clause
-      some { s with net := updN s i { me with pc := .epilogue }, log := s.log ++ [(t, .hchk none)] }
+  | .hChk =>               -- check and cleanup are ONE locked block (atomic w.r.t. `connect()`)
+    if canAcq s t then
+      match target s with
+      | some j =>
+        if (s.net j).intr then       -- `self.disconnect(immediate=True)`, a re-entrant acquisition
+          some { doDisconnect s with
+                   owner := some t, depth := s.depth + 1,
+                   net := updN (doDisconnect s) i { (doDisconnect s).net i with pc := .hRel },
+                   log := s.log ++ [(t, .hchk (some true))] }
+        else
+          some { s with owner := some t, depth := s.depth + 1,
+                        net := updN s i { me with pc := .hRel },
+                        log := s.log ++ [(t, .hchk (some false))] }
+      | none =>            -- `None.interrupt`: AttributeError inside the `with`, inside the `except`
+        some { s with owner := some t, depth := s.depth + 1,
+                      net := updN s i { me with pc := .hRel }, log := s.log ++ [(t, .hchk none)] }
+    else none
+  | .hRel =>
+    some { s with owner := ownerAfterRel s, depth := s.depth - 1,
+                  net := updN s i { me with pc := .epilogue }, log := s.log ++ [(t, .rel)] }
   | .epilogue =>
     if canAcq s t then
       some { s with owner := some t, depth := s.depth + 1, nt := none,
@@ -434,8 +446,8 @@ def NPc.phase : NPc → Phase
   | .takeOver | .tkRel => .takeOver
   | .loopChk | .wBody | .wRel | .wFailRel | .rChk | .rRead | .exit => .io
   | .call .react | .call .listen | .callRel .react _ | .callRel .listen _ => .io
-  | .exc | .hRun | .hChk => .handling
-  | .call .handler | .call .cleanup | .callRel .handler _ | .callRel .cleanup _ => .handling
+  | .exc | .hRun | .hChk | .hRel => .handling
+  | .call .handler | .callRel .handler _ => .handling
   | .epilogue | .epRel => .epilogue
   | .fin => .done
   | .dead => .dead
